@@ -91,8 +91,15 @@ Inductive aline := ALabel (l : label) | AInstr (i : ains).
 (* ---------- source fragment ---------- *)
 (* int literal | i-th int local | binary arithmetic | unary - + *)
 Inductive unop := UNeg | UPos.
+(* which byte of the frame a byte read takes:
+     YSlot j   the j-th byte-sized local x:        `x is int`           ByteToInt(VariableLookup)
+     YLow i    the low byte of the i-th int local:  `(x is byte) is int` ByteToInt(IntToByte(VariableLookup)):
+               Indirect.access_byte() = IndirectByte at the same offset (little endian) *)
+Inductive yloc := YSlot (j : nat) | YLow (i : nat).
 Inductive iopd := OLit (z : Z) | OVar (i : nat) | OArith (op : src_arith) (x y : iopd) | OUn (u : unop) (x : iopd)
-               | OGlob (g : nat).            (* the g-th int global (not const): State(var_<name>_0), volatile *)
+               | OGlob (g : nat)             (* the g-th int global (not const): State(var_<name>_0), volatile *)
+               | OByte (v : yloc).           (* a byte of the frame read as an int, zero-extended with lbso:
+                                                IndirectByte(STATE, [fp], -off) *)
 (* where a bool variable lives: a byte of the frame (IndirectByte) or a byte global (StateByte) *)
 Inductive bloc := BLocal (j : nat) | BGlobal (h : nat).
 Inductive bexpr :=
@@ -108,6 +115,7 @@ Inductive bexpr :=
    stack_top = self.stack.offset at the point where the expression is lowered *)
 Record env := mkenv { int_off : nat -> Z; bool_off : nat -> Z; wsize : Z; stack_top : Z }.
 Definition with_top (E : env) (t : Z) : env := mkenv (int_off E) (bool_off E) (wsize E) t.
+Definition byte_off (E : env) (v : yloc) : Z := match v with YSlot j => bool_off E j | YLow i => int_off E i end.
 
 (* ---------- goto / is_goto ---------- *)
 Definition goto (l : label) : list aline := [AInstr (AJump (SLab l)); AInstr AHaltI].
@@ -139,7 +147,7 @@ Definition arith_instr (op : src_arith) : aop :=
   match find (fun e => src_arith_eqb (fst e) op) arith_map with Some e => snd e | None => Aadd end.
 
 (* ---------- operands ---------- *)
-(* is_safe: PrimitiveValue or VariableLookup *)
+(* is_safe: PrimitiveValue or VariableLookup (a cast node -- OByte -- is not) *)
 Definition is_safe (o : iopd) : bool := match o with OLit _ | OVar _ | OGlob _ => true | _ => false end.
 Definition reg_eqb (a b : reg) : bool :=
   match a, b with
@@ -154,14 +162,15 @@ Definition is_state_of (r : reg) (v : sym) : bool := match v with SReg r' => reg
 (* the ValueBubble eval_expr returns, as far as F_model needs it *)
 Inductive bubble :=
 | BuImm (z : Z)          (* vacuous, IntLiteral *)
-| BuLocal (off : Z)      (* vacuous, Indirect(STATE, [fp], -off): a local, never volatile *)
+| BuLocal (yb : bool) (off : Z)  (* vacuous, Indirect / IndirectByte (yb) (STATE, [fp], -off): a local, never volatile *)
 | BuReg (r : reg)        (* vacuous, State(r): volatile *)
 | BuPushed (off : Z).    (* push_value: a reserved word at frame offset off *)
 (* pop_value(r, bubble): release the bubble (no code: no arrays here), then bubble.value.get(r) *)
 Definition pop_value (r : reg) (b : bubble) : list aline * sym :=
   match b with
   | BuImm z => ([], SLit z)
-  | BuLocal off | BuPushed off => ([AInstr (ALwso r (SReg RFp) (SLit (- off)))], SReg r)
+  | BuLocal false off | BuPushed off => ([AInstr (ALwso r (SReg RFp) (SLit (- off)))], SReg r)
+  | BuLocal true off => ([AInstr (ALbso r (SReg RFp) (SLit (- off)))], SReg r)       (* IndirectByte.get *)
   | BuReg r' => ([], SReg r')
   end.
 (* self.stack.offset while the bubble is live *)
@@ -177,7 +186,8 @@ Definition finish_opd (E : env) (top : Z) (r_out : reg) (keep : bool) (code : li
 Fixpoint eval_opd (E : env) (top : Z) (r_out : reg) (o : iopd) (keep : bool) : list aline * bubble :=
   match o with
   | OLit z => ([], BuImm z)
-  | OVar i => ([], BuLocal (int_off E i))
+  | OVar i => ([], BuLocal false (int_off E i))
+  | OByte v => ([], BuLocal true (byte_off E v))
   | OGlob g =>                       (* VariableLookup of a non-const global: volatile, pushed if kept *)
       if keep then ([AInstr (ASwso (SReg RFp) (SLit (- (top + wsize E))) (SReg (RGlob g)))], BuPushed (top + wsize E))
       else ([], BuReg (RGlob g))
@@ -212,10 +222,11 @@ Definition compare_operands (E : env) (a b : iopd) : list aline * sym * sym :=
    stack top at any moment (LowerBoolProofs.eval_opd_stores: every `swso [fp], -off, _` of the
    emitted code has top < off <= top + temps * w, and the bound is attained) *)
 Definition is_glob (o : iopd) : bool := match o with OGlob _ => true | _ => false end.
-Definition pushed (o : iopd) (keep : bool) : nat := if keep && (negb (is_safe o) || is_glob o) then 1%nat else 0%nat.
+Definition is_vac (o : iopd) : bool := match o with OLit _ | OVar _ | OByte _ => true | _ => false end.
+Definition pushed (o : iopd) (keep : bool) : nat := if keep && negb (is_vac o) then 1%nat else 0%nat.
 Fixpoint temps (o : iopd) (keep : bool) : nat :=
   match o with
-  | OLit _ | OVar _ => 0%nat
+  | OLit _ | OVar _ | OByte _ => 0%nat
   | OGlob _ => if keep then 1%nat else 0%nat
   | OArith _ x y =>
       let kx := negb (is_safe y) in
